@@ -79,6 +79,7 @@ type Exec struct {
 	watchObj    map[*Object]*mutexGhost
 	watchMap    map[*MapObj]*mutexGhost
 	watchOn     bool
+	watchReads  bool // also monitor reads of fields that are written somewhere (vSetOpt "watchReads")
 	// hooks
 	fnNames map[*ssa.Function]string
 }
